@@ -265,7 +265,23 @@ def locate_error(g, d, kind):
         for s in sec:
             if s.get("text"):
                 callee_text = s["text"][0]["text"].strip()
-    return {"kind": kind, "message": d.get("message"), "owner": owner, "clause": clause, "callee_clause": callee_clause,
+    # does the failing assertion / call sit inside a `proof { .. }` block that the TEMPLATE inserted (rule R10)? Then it is a
+    # step of the contract's proof, not a run-time check of the code: it belongs to the property's contract, not to "safety"
+    in_proof = False
+    if kind in ("assertion", "precondition") and prim:
+        ln, col = prim[0].get("line_start"), prim[0].get("column_start")
+        if ln and col and 1 <= ln <= len(g.lines):
+            txt = g.lines[ln - 1]
+            tm = extract.mask_rust(txt)
+            for pm in re.finditer(r"\bproof\s*\{", tm):
+                try:
+                    close = extract.match_brace(tm, pm.end() - 1)
+                except Exception:
+                    close = len(tm)
+                if pm.start() < col - 1 <= close:
+                    in_proof = True
+                    break
+    return {"kind": kind, "in_proof": in_proof, "message": d.get("message"), "owner": owner, "clause": clause, "callee_clause": callee_clause,
             "callee_text": callee_text, "repo_loc": repo_loc, "rendered": d.get("rendered", ""),
             "labels": [s.get("label") for s in spans]}
 
@@ -291,16 +307,16 @@ def obligations_for(g, prop, errors, breakdown, unit):
                     failed = [e for e in ferrs if e["kind"].startswith("invariant") or e["kind"] == "decreases"]
                 obs.append({"id": c["id"], "kind": c["kind"], "text": c["text"], "where": loc, "failed": failed, "fn": f})
         # one aggregated safety obligation (overflow, bounds, unwrap, unreached, callee preconditions) + R4 asserts
-        sfail = [e for e in ferrs if e["kind"] in SAFETY_KINDS]
+        sfail = [e for e in ferrs if e["kind"] in SAFETY_KINDS and not e.get("in_proof")]
         obs.append({"id": base + "::safety", "kind": "safety", "where": loc, "fn": f,
                     "text": f"no overflow / out-of-bounds / failed unwrap / unreachable / violated callee precondition in {f['name']} ({f['n_asserts']} source assertions included)",
                     "failed": sfail})
         # errors not attributed to any clause (e.g. postcondition whose clause line was not resolved)
         all_clause_ids = {c["id"] for c in f["clauses"]}
-        other = [e for e in ferrs if e["kind"] not in SAFETY_KINDS and not any(e in o["failed"] for o in obs)
+        other = [e for e in ferrs if (e["kind"] not in SAFETY_KINDS or e.get("in_proof")) and not any(e in o["failed"] for o in obs)
                  and e.get("clause") not in all_clause_ids]    # a clause tagged for another property is that property's business
         if other and prop != "C08":
-            obs.append({"id": base + "::unattributed", "kind": "other", "where": loc, "fn": f, "text": "verifier error not attributed to a clause", "failed": other})
+            obs.append({"id": base + "::contract", "kind": "other", "where": loc, "fn": f, "text": "the function's contract as a whole: a proof step of the template (proof hint / lemma call) or an error not attributable to one clause fails", "failed": other})
     for l in g.lemmas:
         if prop not in l["props"]:
             continue
